@@ -311,7 +311,16 @@ theorem Acc_wakeOne (q : Quirks) (s : State) (h : Acc s) : Acc (wakeOne q s) := 
   · next w rest hw =>
     simp only []
     split
-    · exact Acc_notify _ _ (Acc_congr (s := s) rfl rfl rfl rfl h)
+    · split
+      · exact Acc_notify _ _ (Acc_congr (s := s) rfl rfl rfl rfl h)
+      · exact Acc_congr (s := s) rfl rfl rfl rfl h
+    split
+    · have hd : Acc { (setBlocked { s with wakeQ := rest } w.conn none) with
+          registry := (setBlocked { s with wakeQ := rest } w.conn none).registry.filter fun x => x.2.conn != w.conn } :=
+        Acc_congr (s := s) (by simp) (by simp) (by simp) (by simp) h
+      split
+      · exact Acc_notify _ _ hd
+      · exact hd
     split
     · exact Acc_congr (s := s) rfl rfl rfl rfl h
     · next e st' hp =>
